@@ -148,21 +148,12 @@ def extender_table(F, rep, rule, graph_route):
     try:
         step = find_step(F, suffix)
     except Unsupported as e:
-        rep.violated(rule, "extender", str(e), witness={"kind": "anchor-missing"})
+        rep.inconclusive(rule, "extender", str(e))
         return
-    # extender = the function in the same impl that calls the step function inside a loop
-    cands = []
-    for b in F.fns.values():
-        if b is step or b.get("derived"):
-            continue
-        g = C.CFG(b)
-        sites = g.calls_to(step["path"])
-        sites = [s for s in g.calls() if s[2] and (s[2].get("rpath") == step["path"] or s[2].get("path") == step["path"])]
-        if sites and any(g.loop_of(s[0]) for s in sites):
-            cands.append(b)
+    # extender = the named function that calls the step function (directly, in a loop, or from a closure it hands to an iterator)
+    cands = attributed_callers(F, step["path"])
     if len(cands) != 1:
-        rep.violated(rule, "extender", "anchor-missing: expected one function calling the %s step function in a loop, found %d" % (label, len(cands)),
-                     witness={"kind": "anchor-missing"})
+        rep.inconclusive(rule, "extender", "role discovery: expected one function calling the %s step function, found %d" % (label, len(cands)))
         return
     body = cands[0]
     adt_path = C.adt_name(F, body["locals"][1])
@@ -264,19 +255,41 @@ def extender_table(F, rep, rule, graph_route):
 
 # =========================================================================== node builders
 
+def outer_fn(F, body):
+    """the named function a (possibly nested) closure body belongs to"""
+    p_ = body["path"]
+    while "::{closure" in p_:
+        p_ = p_[:p_.rindex("::{closure")]
+    return F.fns.get(p_, body)
+
+
+def attributed_callers(F, callee_path, exclude=()):
+    """named functions that call `callee_path` themselves or from one of their closures (however the call is wrapped: loop, iterator
+    adapter, iter::from_fn, helper closure)"""
+    out = {}
+    for b in F.fns.values():
+        if b.get("derived"):
+            continue
+        for bb in b["blocks"]:
+            t = bb["t"]
+            if t.get("k") == "call":
+                fr = t["f"].get("const", {}).get("fn") if "const" in t["f"] else None
+                if fr and (fr.get("rpath") == callee_path or fr.get("path") == callee_path):
+                    o = outer_fn(F, b)
+                    if o["path"] not in exclude and o["path"] != callee_path:
+                        out[o["path"]] = o
+                    break
+    return list(out.values())
+
+
 def find_extender(F, graph_route):
+    """the growth function: the one named function that calls the step function (role discovery; an undetermined role is reported as
+    INCONCLUSIVE by the callers, never as a violation)"""
     suffix = "compression::ExtModeNode" if graph_route else "compression::ExtMode"
     step = find_step(F, suffix)
-    cands = []
-    for b in F.fns.values():
-        if b is step or b.get("derived"):
-            continue
-        g = C.CFG(b)
-        sites = [s for s in g.calls() if s[2] and (s[2].get("rpath") == step["path"] or s[2].get("path") == step["path"])]
-        if sites and any(g.loop_of(s[0]) for s in sites):
-            cands.append(b)
+    cands = attributed_callers(F, step["path"])
     if len(cands) != 1:
-        raise Unsupported("anchor-missing: growth loop of the %s route" % ("graph" if graph_route else "k-mer"))
+        raise Unsupported("role discovery: expected one function calling the %s step function, found %d" % ("graph route" if graph_route else "k-mer route", len(cands)))
     return step, cands[0]
 
 
@@ -304,18 +317,7 @@ def reaches_fn(F, body, target, _seen=None):
 
 
 def find_callers(F, callee_path, exclude=()):
-    out = []
-    for b in F.fns.values():
-        if b.get("derived") or b["path"] in exclude:
-            continue
-        for bb in b["blocks"]:
-            t = bb["t"]
-            if t.get("k") == "call":
-                fr = t["f"].get("const", {}).get("fn") if "const" in t["f"] else None
-                if fr and (fr.get("rpath") == callee_path or fr.get("path") == callee_path):
-                    out.append(b)
-                    break
-    return out
+    return attributed_callers(F, callee_path, exclude)
 
 
 class HashBuilderOracles(WalkOracles):
@@ -362,10 +364,10 @@ def hash_builder_table(F, rep, rule):
         step, ext = find_extender(F, False)
         builders = find_callers(F, ext["path"], exclude=(ext["path"],))
     except Unsupported as e:
-        rep.violated(rule, "kmer-builder", str(e), witness={"kind": "anchor-missing"})
+        rep.inconclusive(rule, "kmer-builder", str(e))
         return
     if len(builders) != 1:
-        rep.violated(rule, "kmer-builder", "anchor-missing: expected one caller of the growth loop, found %d" % len(builders), witness={"kind": "anchor-missing"})
+        rep.inconclusive(rule, "kmer-builder", "role discovery: expected one caller of the growth function, found %d" % len(builders))
         return
     body = builders[0]
     adt_path = C.adt_name(F, body["locals"][1])
@@ -489,10 +491,10 @@ def graph_builder_table(F, rep, rule):
         step, ext = find_extender(F, True)
         builders = find_callers(F, ext["path"], exclude=(ext["path"],))
     except Unsupported as e:
-        rep.violated(rule, "graph-builder", str(e), witness={"kind": "anchor-missing"})
+        rep.inconclusive(rule, "graph-builder", str(e))
         return
     if len(builders) != 1:
-        rep.violated(rule, "graph-builder", "anchor-missing: expected one caller of the graph growth loop, found %d" % len(builders), witness={"kind": "anchor-missing"})
+        rep.inconclusive(rule, "graph-builder", "role discovery: expected one caller of the graph growth function, found %d" % len(builders))
         return
     body = builders[0]
     adt_path = C.adt_name(F, body["locals"][1])
@@ -696,10 +698,10 @@ def find_builder(F, graph_route):
     step, ext = find_extender(F, graph_route)
     bs = find_callers(F, ext["path"], exclude=(ext["path"],))
     if len(bs) != 1:
-        raise Unsupported("anchor-missing: node builder of the %s route" % ("graph" if graph_route else "k-mer"))
+        raise Unsupported("role discovery: node builder of the %s route not unique (%d)" % ("graph" if graph_route else "k-mer", len(bs)))
     ds = find_callers(F, bs[0]["path"], exclude=(bs[0]["path"],))
     if len(ds) != 1:
-        raise Unsupported("anchor-missing: driver of the %s route" % ("graph" if graph_route else "k-mer"))
+        raise Unsupported("role discovery: driver of the %s route not unique (%d)" % ("graph" if graph_route else "k-mer", len(ds)))
     return step, ext, bs[0], ds[0]
 
 
@@ -731,7 +733,7 @@ def hash_driver_table(F, rep, rule):
     try:
         step, ext, builder, body = find_builder(F, False)
     except Unsupported as e:
-        rep.violated(rule, "kmer-driver", str(e), witness={"kind": "anchor-missing"})
+        rep.inconclusive(rule, "kmer-driver", str(e))
         return
     key0 = "kmer-driver(%s)" % body["path"].split("::")[-1]
     problems = []
@@ -801,7 +803,7 @@ def graph_driver_table(F, rep, rule):
     try:
         step, ext, builder, body = find_builder(F, True)
     except Unsupported as e:
-        rep.violated(rule, "graph-driver", str(e), witness={"kind": "anchor-missing"})
+        rep.inconclusive(rule, "graph-driver", str(e))
         return
     key0 = "graph-driver(%s)" % body["path"].split("::")[-1]
     problems = []
@@ -919,7 +921,7 @@ def entry_points_table(F, rep, rule):
     try:
         step, ext, builder, driver = find_builder(F, False)
     except Unsupported as e:
-        rep.violated(rule, "entry-points", str(e), witness={"kind": "anchor-missing"})
+        rep.inconclusive(rule, "entry-points", str(e))
         return
     # public functions of the crate that (transitively) reach the driver
     entries = [b for b in F.fns.values() if b["vis"] == "pub" and b["kind"] == "Fn" and b["path"] != driver["path"] and reaches_fn(F, b, driver["path"])]
